@@ -141,6 +141,11 @@ func (g *G) tx(v *view, check bool) script.Tx {
 		m := &msgs[0]
 		if p, ok := signerPos[m.Kind]; ok {
 			m.Args[p] = g.acct(g.anyAcct())
+			// name a holder of locked eFUND on a WRKChain/BEACON message now and then: the fee unlock acts on the
+			// named payer before the signatures are verified
+			if len(v.locked) > 0 && (m.Kind[:3] == "wrk" || m.Kind[:3] == "bcn") && g.chance(50) {
+				m.Args[p] = A(g.pickInt(v.locked))
+			}
 			signer = signerOf(*m)
 		}
 		if p, ok := otherPos[m.Kind]; ok && g.chance(35) {
